@@ -25,6 +25,11 @@ T31 = T([b"b", b"d", b"f"], [1, 1, 1], [b"c", b"e", b"f"])
 T32 = T([b"b", b"d", b"f", b"h", b"j", b"l"], [2, 2, 2], [b"d", b"i", b"l"], irst=[1, 0, 1])
 TPF = T([b"", b"a", b"ab", b"b\xff", b"c"], [2, 3], [b"a", b"c"], rsts=[1, 0, 1, 1, 0], shs=[0, 0, 0, 0, 0])
 TRS = T([b"aa", b"ab", b"ac", b"ba", b"bb", b"bc"], [3, 3], [b"ad", b"bc"], rsts=[1, 0, 0, 1, 0, 1], shs=[0, 1, 1, 0, 1, 0])
+# lengths whose varints take two bytes: 130/131-byte keys (one sharing a byte), 128-byte value, 130/131-byte index keys
+_LK = [b"a", b"a" + b"b" * 129, b"c" * 131]
+TLG = T(_LK, [2, 1], [_LK[1], _LK[2]], rsts=[1, 0, 1], shs=[0, 1, 0], vls=[128, 0, 2])
+TL1 = T([b"kk"], [1], [b"kk"], vls=[128])                  # single entries: a mis-decoded length fails at once
+TL2 = T([b"k" * 128], [1], [b"k" * 128], vls=[1])
 # symbolic tables
 S21 = dict(kls=[1, 1], vls=[1, 1], blk=[1, 1], no_trailer=True)
 S22 = dict(kls=[1, 2, 2, 1], vls=[0, 1, 1, 0], blk=[2, 2], sepl=[2, 1], no_trailer=True)
@@ -62,6 +67,10 @@ def build(tier, seed):
         ("TPF", TPF, ["nnnsn"] if quick else ["sn", "nsn", "nnnsn", "nnnnnsn"]),
         ("TRS", TRS, ["nnsn", "nnnnnsn"] if quick else ["sn", "nsn", "nnsn", "nnnsn", "nnnnsn", "nnnnnsn", "nnnnnnsn"]),
     ]
+    # long keys: concrete seek targets (a symbolic target over 130-byte keys ran out of 14 GB); values stay symbolic
+    for h, tg in ([("nSn", [b"ab"]), ("SnSn", [b"b", b"a"])] if quick else
+                  [("nSn", [b"ab"]), ("SnSn", [b"b", b"a"]), ("nnSnn", [b"a"]), ("Snn", [b"ab"]), ("nnnSn", [b"ab"]), ("SSn", [b"c", b"ab"])]):
+        qs.append(rc.rq("hist_TLG_iter_%s_%s" % (h, "_".join(t.decode() for t in tg)), "h_history", with_q(TLG, b"a", ctgt=tg), ops=h, kind=0, witness=(h == "nSn")))
     if not quick:
         planB.append(("T32", T32, ["nnnsn", "nnnnnsn", "nnnnnnnsn"]))
     for tag, spec, hs in planB:
@@ -115,8 +124,8 @@ def build(tier, seed):
                 add(tag + "x2", spec, h, 0)
     meta = {
         "functions": rc.FUNCS, "units": ["mtbl/reader.c"] + rc.UNITS,
-        "bounds": "tables of <= 3 blocks x <= 3 entries, keys <= 2 bytes; histories of <= 9 operations over {next, seek, next on a second iterator of the same reader}; family A: every key/value/separator byte symbolic, one symbolic seek from a fresh iterator; family B: six concrete key tables (incl. empty key, proper prefixes, 0xff, restart runs with sharing, index without restarts), values symbolic, any concrete pre-history, then one (thorough: two) seek(s) whose target bytes (0..2) are symbolic -- i.e. every (position, target) pair of those tables; all four iterator kinds",
-        "outside": "larger tables, keys > 2 bytes, more than two symbolic seeks in one history (formula size grows ~2x per symbolic seek: 41 M SAT variables for two seeks over symbolic keys); histories over symbolic KEYS with a non-fresh iterator; the reader struct is constructed white-box in the state mtbl_reader_init_fd leaves (init itself: C19/C11 drain harness)",
+        "bounds": "tables of <= 3 blocks x <= 3 entries, keys <= 2 bytes (plus one table with 130/131-byte keys, a 128-byte symbolic value and concrete seek targets); histories of <= 9 operations over {next, seek, next on a second iterator of the same reader}; family A: every key/value/separator byte symbolic, one symbolic seek from a fresh iterator; family B: six concrete key tables (incl. empty key, proper prefixes, 0xff, restart runs with sharing, index without restarts), values symbolic, any concrete pre-history, then one (thorough: two) seek(s) whose target bytes (0..2) are symbolic -- i.e. every (position, target) pair of those tables; all four iterator kinds",
+        "outside": "larger tables, keys > 2 bytes with symbolic seek targets (ran out of 14 GB at 130 bytes), more than two symbolic seeks in one history (formula size grows ~2x per symbolic seek: 41 M SAT variables for two seeks over symbolic keys); histories over symbolic KEYS with a non-fresh iterator; the reader struct is constructed white-box in the state mtbl_reader_init_fd leaves (init itself: C19/C11 drain harness)",
         "stubs": rc.STUBS,
         "assumptions": ["seek targets on get/prefix/range iterators are at or after the start of the iterator's range (the property's precondition)",
                         "separators lie in the legal interval [last key of block, first key of next block)"],
